@@ -35,6 +35,10 @@ pub enum Op {
     /// set through a scoped view of the context
     SetViaScope(usize, usize),
     Sub(usize, Init),
+    /// a sub-context created through the generated `<I18nSubContextProvider>` component in the parent's owner
+    SubProv(usize, Init),
+    /// `use_i18n()` looked up now in the owner the context was provided in, then `set_locale` through that handle
+    SetViaLookup(usize, usize),
     SigSet(usize, usize),
     MakeAccessors(usize),
     Poll,
@@ -71,7 +75,10 @@ impl Model {
                 v.push(Op::SetUntracked(c, l));
             }
             v.push(Op::SetViaScope(c, set_locales[set_locales.len() - 1]));
+            v.push(Op::SetViaLookup(c, set_locales[0]));
             if n < max_ctx {
+                v.push(Op::SubProv(c, Init::None));
+                v.push(Op::SubProv(c, Init::Const(2)));
                 v.push(Op::Sub(c, Init::None));
                 v.push(Op::Sub(c, Init::Const(2)));
                 v.push(Op::Sub(c, Init::Wired(1)));
@@ -90,7 +97,7 @@ impl Model {
     }
     pub fn apply(&mut self, op: Op) {
         match op {
-            Op::Set(c, l) | Op::SetUntracked(c, l) | Op::SetViaScope(c, l) => {
+            Op::Set(c, l) | Op::SetUntracked(c, l) | Op::SetViaScope(c, l) | Op::SetViaLookup(c, l) => {
                 self.untracked_last[c] = matches!(op, Op::SetUntracked(..));
                 self.polled[c] = false;
                 let pending = self.wired[c].and_then(|w| w.1);
@@ -100,7 +107,7 @@ impl Model {
                     self.cands[c].insert(p);
                 }
             }
-            Op::Sub(parent, init) => {
+            Op::Sub(parent, init) | Op::SubProv(parent, init) => {
                 let start: BTreeSet<usize> = match init {
                     Init::None => self.cands[parent].clone(),
                     Init::Const(l) | Init::Wired(l) => [l].into(),
@@ -167,6 +174,8 @@ struct Real {
     accessors: Vec<(usize, Vec<(&'static str, Reader)>)>,
     /// subscribers: a memo over `t_string!` and an effect writing what it sees into a sink
     reactive: Vec<(usize, Memo<String>, std::sync::Arc<std::sync::Mutex<Option<String>>>)>,
+    /// the views of the provider components (they own the providers' owners)
+    views: Vec<AnyView>,
 }
 
 fn no_header() -> UseLocalesOptions {
@@ -190,7 +199,8 @@ impl Real {
         let opts = I18nContextOptions::<Locale>::default().enable_cookie(false).ssr_lang_header_getter(no_header());
         let root = Owner::current().expect("owner");
         let ctx: I18nContext<Locale> = init_i18n_context_with_options(opts);
-        Real { ctxs: vec![ctx], owners: vec![root], wired: vec![None], accessors: vec![], reactive: vec![] }
+        provide_context(ctx);
+        Real { ctxs: vec![ctx], owners: vec![root], wired: vec![None], accessors: vec![], reactive: vec![], views: vec![] }
     }
     fn apply(&mut self, op: Op) {
         match op {
@@ -203,22 +213,38 @@ impl Real {
                 deeper.set_locale(loc(l));
             }
             Op::Sub(parent, init) => {
-                let pctx = self.ctxs[parent];
+                // (the parent is found the way an application finds it: it was provided in the parent's owner)
                 let child_owner = self.owners[parent].child();
                 let (ctx, sig) = child_owner.with(|| {
-                    provide_context(pctx);
-                    match init {
+                    let made = match init {
                         Init::None => (init_i18n_subcontext_with_options::<Locale>(None, None, None, Some(no_header())), None),
                         Init::Const(l) => (init_i18n_subcontext_with_options::<Locale>(Some(Signal::derive(move || loc(l))), None, None, Some(no_header())), None),
                         Init::Wired(l) => {
                             let s = RwSignal::new(loc(l));
                             (init_i18n_subcontext_with_options::<Locale>(Some(s.into()), None, None, Some(no_header())), Some(s))
                         }
-                    }
+                    };
+                    provide_context(made.0);
+                    made
                 });
                 self.ctxs.push(ctx);
                 self.owners.push(child_owner);
                 self.wired.push(sig);
+            }
+            Op::SubProv(parent, init) => {
+                let initial = match init {
+                    Init::None => None,
+                    Init::Const(l) | Init::Wired(l) => Some(Signal::derive(move || loc(l))),
+                };
+                let (view, ctx, owner) = self.owners[parent].with(|| provider_sub(initial, None, leptos_i18n::context::CookieOptions::<Locale>::default().ssr_cookies_header_getter(|| None), no_header()));
+                self.views.push(view);
+                self.ctxs.push(ctx);
+                self.owners.push(owner);
+                self.wired.push(None);
+            }
+            Op::SetViaLookup(c, l) => {
+                let handle: I18nContext<Locale> = self.owners[c].with(use_i18n);
+                handle.set_locale(loc(l));
             }
             Op::SigSet(c, l) => {
                 if let Some(s) = self.wired[c] {
@@ -311,6 +337,12 @@ fn replay(history: &[Op], snapshots: Option<&mut Vec<String>>) -> Option<String>
                 snap.push_str(&format!("c{c}={} ", NAMES[got]));
                 if !model.cands[c].contains(&got) {
                     return Some(format!("after step {step} ({op:?}) context {c} reads {} but the last locale set on it is {:?}", NAMES[got], model.cands[c].iter().map(|i| NAMES[*i]).collect::<Vec<_>>()));
+                }
+                // `use_i18n()` in the owner the context was provided in finds this context, whatever was created
+                // next to it since
+                let looked_up = idx(real.owners[c].with(use_i18n).get_locale_untracked());
+                if looked_up != got {
+                    return Some(format!("after step {step} ({op:?}) use_i18n() in the owner of context {c} finds a context reading {} while context {c} reads {}", NAMES[looked_up], NAMES[got]));
                 }
                 // a scoped view created now reads the same locale
                 let scoped = scope_i18n!(*ctx, group);
@@ -451,7 +483,7 @@ pub fn run(tier: Tier) -> i32 {
     rep.sample(json!({"history": format!("{probe:?}"), "snapshots": a}));
     let n_states = states.lock().unwrap().len();
     let mut cov = serde_json::Map::new();
-    cov.insert("rule".into(), json!(format!("every operation history of length <= {depth} over a tree of <= {max_ctx} contexts: set_locale / set_locale_untracked (fr, de) on any context, set through a doubly scoped view, sub-context creation under any context with no / constant / caller-wired initial locale, writes to a wired signal (changing and not changing its value), creation of accessor sets (t! closures with and without arguments and scoping, t_string!, tu_string!, t_display!) and `poll` (run effects to quiescence - also absent, so both 'effects have run' and 'not yet' are explored); each history is replayed from scratch on a fresh Owner (stateless search) and after EVERY step every context, a fresh scoped view of it and every accessor made earlier is read; oracle: a map context -> last locale set (own sets and its wired signal only); states = distinct (context locales) snapshots reached")));
+    cov.insert("rule".into(), json!(format!("every operation history of length <= {depth} over a tree of <= {max_ctx} contexts: set_locale / set_locale_untracked (fr, de) on any context, set through a doubly scoped view, sub-context creation under any context with no / constant / caller-wired initial locale - directly (init_i18n_subcontext_with_options in a child owner) or through the generated <I18nSubContextProvider> component placed in the parent's owner -, set_locale through a handle looked up with use_i18n() in a context's owner after everything created next to it, writes to a wired signal (changing and not changing its value), creation of accessor sets (t! closures with and without arguments and scoping, t_string!, tu_string!, t_display!) and `poll` (run effects to quiescence - also absent, so both 'effects have run' and 'not yet' are explored); each history is replayed from scratch on a fresh Owner (stateless search) and after EVERY step every context, a fresh scoped view of it and every accessor made earlier is read; oracle: a map context -> last locale set (own sets and its wired signal only); states = distinct (context locales) snapshots reached")));
     cov.insert("exhaustive".into(), json!(true));
     cov.insert("states".into(), json!(n_states.max(1)));
     cov.insert("depth".into(), json!(depth));
